@@ -31,13 +31,13 @@ type Node struct {
 	HasA bool // list part exists (possibly empty)
 }
 
-func Nil() *Node                { return &Node{Kind: KNil} }
-func P(v interface{}) *Node     { return &Node{Kind: KPrim, Prim: v} }
-func Dict() *Node               { return &Node{Kind: KSub, D: map[string]*Node{}} }
-func List(el ...*Node) *Node    { return &Node{Kind: KSub, A: el, HasA: true} }
-func (n *Node) IsSub() bool     { return n != nil && n.Kind == KSub }
-func (n *Node) IsNil() bool     { return n == nil || n.Kind == KNil }
-func (n *Node) IsPrim() bool    { return n != nil && n.Kind == KPrim }
+func Nil() *Node             { return &Node{Kind: KNil} }
+func P(v interface{}) *Node  { return &Node{Kind: KPrim, Prim: v} }
+func Dict() *Node            { return &Node{Kind: KSub, D: map[string]*Node{}} }
+func List(el ...*Node) *Node { return &Node{Kind: KSub, A: el, HasA: true} }
+func (n *Node) IsSub() bool  { return n != nil && n.Kind == KSub }
+func (n *Node) IsNil() bool  { return n == nil || n.Kind == KNil }
+func (n *Node) IsPrim() bool { return n != nil && n.Kind == KPrim }
 func (n *Node) Set(k string, v *Node) *Node {
 	if n.D == nil {
 		n.D = map[string]*Node{}
